@@ -23,6 +23,9 @@ import os
 from .mir import strip_generics
 
 MAX_DEPTH = 4
+# pinned functions that are pure forwarders: always inlined, so that the rules are written once against the inlined
+# shape and keep working when a refactoring folds the forwarder into its caller
+ALWAYS_INLINE = ("anemo::network::connection_manager::ConnectionManager::handle_connect_request",)
 WORKSPACE = ("anemo", "anemo_tower", "anemo_build", "anemo_cli", "examples")
 
 
@@ -423,7 +426,7 @@ def normalize(prog, pinned=None):
         return report
     new_sync, new_async = {}, {}
     for p, b in prog.bodies.items():
-        if b.crate not in WORKSPACE or p in pinned or "#" in p.split("::")[-1]:
+        if b.crate not in WORKSPACE or (p in pinned and p not in ALWAYS_INLINE) or "#" in p.split("::")[-1]:
             continue
         if b.kind in ("Fn", "AssocFn") and not b.coroutine:
             kids = [k for k in prog.children(b) if k.coroutine]
@@ -434,7 +437,7 @@ def normalize(prog, pinned=None):
                 new_async[p] = (b, kids[0])
             else:
                 new_sync[p] = b
-    report["new_functions"] = sorted(new_sync) + sorted(new_async)
+    report["new_functions"] = sorted(x for x in list(new_sync) + list(new_async) if x not in ALWAYS_INLINE)
     if not new_sync and not new_async:
         return report
     for b in prog.bodies.values():
